@@ -23,10 +23,11 @@ def run(rep):
     import roles
     SSMOD = roles.module_of(w, 'ObjStringStore')
     STORE = SSMOD + '::ObjStringStore'
-    i1(rep, w)
-    i2(rep, w)
-    i3(rep, w)
-    i4(rep, w)
+    rep.guard(i1, rep, w)
+    rep.guard(i2, rep, w)
+    rep.guard(i3, rep, w)
+    rep.guard(i4, rep, w)
+    rep.guard(i5, rep, w)
     if rep.tier == 'thorough':
         import witness
         witness.run_witnesses(rep, 'C11', ['W1StringConstructorIsPrivate', 'W2StringFieldsArePrivate'])
@@ -239,3 +240,21 @@ def i4(rep, w):
     # Value equality / hashing of strings goes through the handle (valid because of I1-I3)
     vh = w.require_fn('yarel::<value::Value as std::hash::Hash>::hash', 'C11')
     r.check('hash' in {tok for q in origins(vh).values() for p_ in q for tok in p_[1:]}, 'Value::hash(ObjString) uses the cached content hash', 'string hashing changed', vh.loc())
+
+
+def i5(rep, w):
+    """two strings with the same bytes must hash alike wherever their bytes happen to sit in memory: the hasher consumes the byte slice one
+    byte at a time. Splitting it by alignment (align_to), reading it through pointers or in native-endian words makes the hash depend on
+    the buffer's address or length class, and equal texts are interned twice."""
+    r = rep.rule('I5', 'the string hash is a function of the bytes alone: no alignment-, address- or word-dependent step in the hasher', floor=1)
+    # PassThroughHasher forwards a hash that was already computed (a fixed-width u64 handed over as bytes): it never sees string bytes
+    hs = [f for p_, f in w.yarel.fns.items() if (p_.startswith('yarel::hash::') or '<hash::' in p_) and 'PassThroughHasher' not in p_]
+    if not hs:
+        raise Broken('C11', 'anchor', 'no function of the hash module found')
+    BAD = ('align_to', 'align_offset', 'as_ptr', 'from_ne_bytes', 'read_unaligned', 'from_raw_parts', 'chunks_exact', 'as_chunks')
+    n = 0
+    for f in sorted(hs, key=lambda x: x.path):
+        used = sorted({(callee_name(t) or '').rsplit('::', 1)[-1] for _, t in f.calls() if (callee_name(t) or '').rsplit('::', 1)[-1] in BAD})
+        n += 1
+        r.check(not used, f.path.replace('yarel::', ''), '%s uses %s: the hash of a string can depend on where its bytes are stored (or on how the buffer splits into words), so the same text hashes '
+                'differently as a fresh string and as a slice of another' % (f.path, used), f.loc())
